@@ -4,7 +4,9 @@ the logical request of step k depends on what the peer answered to step k-1:
 
   OPTIONS → SUPPORTED → STARTUP (options chosen from the SUPPORTED map) → READY
                                    | AUTHENTICATE → AUTH_RESPONSE (→ AUTH_CHALLENGE → AUTH_RESPONSE)* → AUTH_SUCCESS
-  then the plan of the connection's owner: USE "<keyspace>", REGISTER <events>, PREPARE → EXECUTE <id of the answer>.
+  then the plan of the connection's owner: USE "<keyspace>", REGISTER <events>, PREPARE → EXECUTE <id of the answer>,
+  a later execution of a statement whose id is known: EXECUTE <known id> at once (no PREPARE), and
+  EXECUTE → ERROR Unprepared <id> → (forget the id if it is the known one) → PREPARE → EXECUTE <new id>.
 
 SPECIFICATION side (`Spec…`, `specReqs`): a pure function from the configuration, the authenticator
 (a function from the history of challenges to a reply) and the list of peer answers to the list of
@@ -13,7 +15,9 @@ AUTH_RESPONSE is computed from the challenge history at the moment it is due.
 
 MODEL side (`step`, `modelReqs`, `encodeAll`): conn.go's startupCoordinator.options / startup /
 authenticateHandshake (with its loop variables `req` and `challenger`), hostConnPool.connect's
-UseKeyspace, controlConn.registerEvents, Conn.prepareStatement / executeQuery, producing the Go
+UseKeyspace, controlConn.registerEvents, Conn.prepareStatement / executeQuery with the session's
+prepared-statement cache (prepared_cache.go: execIfMissing / evictPreparedID) and executeQuery's
+RequestErrUnprepared arm, producing the Go
 structs the frame builders of Model/FrameWrite.lean take, and from those the bytes.
 Core Lean only.
 -/
@@ -35,7 +39,14 @@ inductive PeerAnswer
   | setKeyspace                                  -- RESULT set_keyspace
   | void                                         -- RESULT void
   | prepared (id : Bytes) (ncols : Nat)          -- RESULT prepared, `ncols` bind columns (blobs)
+  | unprepared (id : Bytes)                      -- ERROR 0x2500 Unprepared <short bytes id>
 deriving DecidableEq, Repr
+
+/-- what identifies a prepared statement on one host: (keyspace in use when it was prepared, statement text) -/
+abbrev Key := Bytes × Bytes
+
+/-- statement ids learnt from PREPARED answers, with the number of bind columns; newest first -/
+abbrev Known := List (Key × (Bytes × Nat))
 
 /-- what Authenticator.Challenge returns -/
 inductive AuthReply
@@ -140,33 +151,53 @@ inductive Stop
   | finished       -- the plan is done
 deriving DecidableEq, Repr
 
-/-- where the exchange is; in the plan: what the last request was -/
+/-- where the exchange is; in the plan: what the last request was, and the statement ids known -/
 inductive SpecAt
   | options
   | startup (compressed : Bool)
   | auth (compressed : Bool) (hist : List (Option Bytes))
-  | use (compressed : Bool) (curKs ks : Bytes) (rest : List Action)
-  | reg (compressed : Bool) (curKs : Bytes) (rest : List Action)
-  | prep (compressed : Bool) (curKs : Bytes) (cons : Nat) (vals : List (Option Bytes)) (rest : List Action)
-  | exe (compressed : Bool) (curKs : Bytes) (rest : List Action)
+  | use (compressed : Bool) (curKs ks : Bytes) (known : Known) (rest : List Action)
+  | reg (compressed : Bool) (curKs : Bytes) (known : Known) (rest : List Action)
+  | prep (compressed : Bool) (curKs : Bytes) (known : Known) (stmt : Bytes) (cons : Nat) (vals : List (Option Bytes))
+      (rest : List Action)
+  | exe (compressed : Bool) (curKs : Bytes) (known : Known) (stmt : Bytes) (cons : Nat) (vals : List (Option Bytes))
+      (rest : List Action)
   | stop (why : Stop)
 deriving DecidableEq, Repr
 
+/-- an ERROR Unprepared <uid> for an EXECUTE of `key`: the id is forgotten iff it is the one known for `key`
+    (an UNPREPARED naming another id says nothing about the known one) -/
+def specForget (known : Known) (key : Key) (uid : Bytes) : Known :=
+  match known.lookup key with
+  | some (id, _) => if id = uid then known.filter (fun e => e.1 != key) else known
+  | none => known
+
+/-- executing `stmt` with `vals`: with a known id for (keyspace in use, statement) the EXECUTE goes out at
+    once (refused locally when the number of values is not the statement's number of bind columns);
+    otherwise the statement is prepared first -/
+def specExec (cfg : Config) (z : Bool) (curKs : Bytes) (known : Known) (stmt : Bytes) (cons : Nat)
+    (vals : List (Option Bytes)) (rest : List Action) : SpecAt × Option (Req × Bool) :=
+  match known.lookup (curKs, stmt) with
+  | some (id, n) =>
+    if n = vals.length then (.exe z curKs known stmt cons vals rest, some (specExecute cfg curKs id cons vals, z))
+    else (.stop .actFailed, none)
+  | none => (.prep z curKs known stmt cons vals rest, some (specPrepare cfg.v curKs stmt, z))
+
 /-- the first request of the rest of the plan (a REGISTER with no event class is not sent) -/
-def specNext (cfg : Config) (z : Bool) (curKs : Bytes) : List Action → SpecAt × Option (Req × Bool)
+def specNext (cfg : Config) (z : Bool) (curKs : Bytes) (known : Known) : List Action → SpecAt × Option (Req × Bool)
   | [] => (.stop .finished, none)
-  | .useKs ks :: rest => (.use z curKs ks rest, some (specUse cfg.cons ks, z))
+  | .useKs ks :: rest => (.use z curKs ks known rest, some (specUse cfg.cons ks, z))
   | .register t s c :: rest =>
-    if specEvents t s c = [] then specNext cfg z curKs rest
-    else (.reg z curKs rest, some (Req.register (specEvents t s c), z))
-  | .exec stmt cons vals :: rest => (.prep z curKs cons vals rest, some (specPrepare cfg.v curKs stmt, z))
+    if specEvents t s c = [] then specNext cfg z curKs known rest
+    else (.reg z curKs known rest, some (Req.register (specEvents t s c), z))
+  | .exec stmt cons vals :: rest => specExec cfg z curKs known stmt cons vals rest
 
 /-- One answer of the peer: where the exchange is afterwards, the request that is due (with: is its
     body compressed), and the argument Success() is called with, if it is. -/
 def specStep (cfg : Config) (au : Authn) : SpecAt → PeerAnswer → SpecAt × Option (Req × Bool) × Option (Option Bytes)
   | .options, .supported m => (.startup (negotiated cfg m), some (specStartup cfg m, false), none)
   | .options, _ => (.stop .hsFailed, none, none)
-  | .startup z, .ready => let (a, r) := specNext cfg z [] cfg.plan; (a, r, none)
+  | .startup z, .ready => let (a, r) := specNext cfg z [] [] cfg.plan; (a, r, none)
   | .startup z, .authenticate cls =>
     if cfg.hasAuth ∧ au.challenge [some cls] ≠ .fail then
       (.auth z [some cls], some (Req.authResponse (tokenOf (au.challenge [some cls])), z), none)
@@ -178,20 +209,23 @@ def specStep (cfg : Config) (au : Authn) : SpecAt → PeerAnswer → SpecAt × O
     else (.stop .hsFailed, none, none)
   | .auth z hist, .authSuccess t =>
     if nextOf (au.challenge hist) then
-      if au.success hist t then let (a, r) := specNext cfg z [] cfg.plan; (a, r, some t)
+      if au.success hist t then let (a, r) := specNext cfg z [] [] cfg.plan; (a, r, some t)
       else (.stop .hsFailed, none, some t)
-    else let (a, r) := specNext cfg z [] cfg.plan; (a, r, none)
+    else let (a, r) := specNext cfg z [] [] cfg.plan; (a, r, none)
   | .auth _ _, _ => (.stop .hsFailed, none, none)
-  | .use z _ ks rest, .setKeyspace => let (a, r) := specNext cfg z ks rest; (a, r, none)
+  | .use z _ ks known rest, .setKeyspace => let (a, r) := specNext cfg z ks known rest; (a, r, none)
   | .use .., _ => (.stop .actFailed, none, none)
-  | .reg z curKs rest, .ready => let (a, r) := specNext cfg z curKs rest; (a, r, none)
+  | .reg z curKs known rest, .ready => let (a, r) := specNext cfg z curKs known rest; (a, r, none)
   | .reg .., _ => (.stop .actFailed, none, none)
-  | .prep z curKs cons vals rest, .prepared id n =>
-    if n = vals.length then (.exe z curKs rest, some (specExecute cfg curKs id cons vals, z), none)
+  | .prep z curKs known stmt cons vals rest, .prepared id n =>
+    if n = vals.length then
+      (.exe z curKs (((curKs, stmt), (id, n)) :: known) stmt cons vals rest, some (specExecute cfg curKs id cons vals, z), none)
     else (.stop .actFailed, none, none)
   | .prep .., _ => (.stop .actFailed, none, none)
-  | .exe z curKs rest, .void => let (a, r) := specNext cfg z curKs rest; (a, r, none)
-  | .exe z curKs rest, .setKeyspace => let (a, r) := specNext cfg z curKs rest; (a, r, none)
+  | .exe z curKs known _ _ _ rest, .void => let (a, r) := specNext cfg z curKs known rest; (a, r, none)
+  | .exe z curKs known _ _ _ rest, .setKeyspace => let (a, r) := specNext cfg z curKs known rest; (a, r, none)
+  | .exe z curKs known stmt cons vals rest, .unprepared uid =>
+    let (a, r) := specExec cfg z curKs (specForget known (curKs, stmt) uid) stmt cons vals rest; (a, r, none)
   | .exe .., _ => (.stop .actFailed, none, none)
   | .stop w, _ => (.stop w, none, none)
 
@@ -224,8 +258,8 @@ def specReqs (cfg : Config) (au : Authn) (answers : List PeerAnswer) : List (Req
 inductive Pending
   | use (ks : Bytes)
   | reg
-  | prep (cons : Nat) (vals : List (Option Bytes))
-  | exe
+  | prep (stmt : Bytes) (cons : Nat) (vals : List (Option Bytes))
+  | exe (stmt : Bytes) (cons : Nat) (vals : List (Option Bytes))     -- the *Query executeQuery re-runs on UNPREPARED
 deriving DecidableEq, Repr
 
 inductive Phase
@@ -243,9 +277,12 @@ structure State where
   curKs : Bytes                       -- conn.currentKeyspace
   compress : Bool                     -- conn.compressor != nil
   successArgs : List (Option Bytes)   -- calls of Success(data) so far
+  /-- session.stmtsLRU restricted to this host: key (currentKeyspace, statement) ↦ the resolved
+      inflightPrepare (id, request.actualColCount). Unbounded here (the LRU bound is an assumption). -/
+  cache : Known
 deriving DecidableEq, Repr
 
-def init (cfg : Config) : State := ⟨.awaitSupported, [], cfg.compressor.isSome, []⟩
+def init (cfg : Config) : State := ⟨.awaitSupported, [], cfg.compressor.isSome, [], []⟩
 
 /-- startupCoordinator.startup: the options map, and whether conn.compressor survives -/
 def startupOpts (cfg : Config) (m : List (Bytes × List Bytes)) : List (Bytes × Bytes) × Bool :=
@@ -269,22 +306,37 @@ def regEvents (t s c : Bool) : List Bytes :=
   let e2 := if s then e1 ++ [evStatus] else e1
   if c then e2 ++ [evSchema] else e2
 
+/-- preparedLRU.evictPreparedID(key, id): the entry goes iff `bytes.Equal(id, ifp.preparedStatment.id)` -/
+def evictPreparedID (cache : Known) (key : Key) (id : Bytes) : Known :=
+  match cache.lookup key with
+  | none => cache
+  | some info => if id = info.1 then cache.filter (fun e => e.1 != key) else cache
+
+/-- Conn.executeQuery of a DML statement up to its c.exec: prepareStatement finds the flight in the cache
+    (execIfMissing) or sends PREPARE; with the statement's info: the value-count check, then EXECUTE -/
+def execQuery (cfg : Config) (curKs : Bytes) (cache : Known) (stmt : Bytes) (cons : Nat) (vals : List (Option Bytes))
+    (rest : List Action) : Phase × Option GReq :=
+  match cache.lookup (curKs, stmt) with
+  | some info =>
+    if vals.length ≠ info.2 then (.stopped .actFailed, none)     -- "gocql: expected %d values send got %d"
+    else (.conn (.exe stmt cons vals) rest, some (GReq.execute info.1 (execParams cfg curKs cons vals) []))
+  | none => (.conn (.prep stmt cons vals) rest, some (GReq.prepare stmt (if cfg.v > 4 then curKs else []) []))
+
 /-- the owner of the connection starts its next action -/
-def advance (cfg : Config) (curKs : Bytes) : List Action → Phase × Option GReq
+def advance (cfg : Config) (curKs : Bytes) (cache : Known) : List Action → Phase × Option GReq
   | [] => (.stopped .finished, none)
   | .useKs ks :: rest =>
     (.conn (.use ks) rest, some (GReq.query (useStmt ks) ⟨cfg.cons, false, [], 0, [], 0, false, 0, []⟩ []))
   | .register t s c :: rest =>
-    if (regEvents t s c).length = 0 then advance cfg curKs rest
+    if (regEvents t s c).length = 0 then advance cfg curKs cache rest
     else (.conn .reg rest, some (GReq.register (regEvents t s c)))
-  | .exec stmt cons vals :: rest =>
-    (.conn (.prep cons vals) rest, some (GReq.prepare stmt (if cfg.v > 4 then curKs else []) []))
+  | .exec stmt cons vals :: rest => execQuery cfg curKs cache stmt cons vals rest
 
 def failHs (s : State) : State × Option GReq := ({ s with phase := .stopped .hsFailed }, none)
 def failAct (s : State) : State × Option GReq := ({ s with phase := .stopped .actFailed }, none)
 
 def enter (cfg : Config) (s : State) (curKs : Bytes) (rest : List Action) : State × Option GReq :=
-  let r := advance cfg curKs rest
+  let r := advance cfg curKs s.cache rest
   ({ s with phase := r.1, curKs := curKs }, r.2)
 
 /-- one response frame handed to the code that waits for it; the request written next, if any -/
@@ -326,11 +378,20 @@ def step (cfg : Config) (au : Authn) (s : State) (a : PeerAnswer) : State × Opt
     match pending, a with
     | .use ks, .setKeyspace => enter cfg s ks rest
     | .reg, .ready => enter cfg s s.curKs rest
-    | .prep cons vals, .prepared id n =>
-      if n ≠ vals.length then failAct s
-      else ({ s with phase := .conn .exe rest }, some (GReq.execute id (execParams cfg s.curKs cons vals) []))
-    | .exe, .void => enter cfg s s.curKs rest
-    | .exe, .setKeyspace => enter cfg s s.curKs rest
+    | .prep stmt cons vals, .prepared id n =>
+      -- the flight in the cache is resolved: flight.preparedStatment = {id, request (n columns)}
+      let s' := { s with cache := ((s.curKs, stmt), (id, n)) :: s.cache }
+      if n ≠ vals.length then failAct s'
+      else ({ s' with phase := .conn (.exe stmt cons vals) rest },
+            some (GReq.execute id (execParams cfg s.curKs cons vals) []))
+    | .exe _ _ _, .void => enter cfg s s.curKs rest
+    | .exe _ _ _, .setKeyspace => enter cfg s s.curKs rest
+    | .exe stmt cons vals, .unprepared uid =>
+      -- case *RequestErrUnprepared: evictPreparedID(keyFor(host, c.currentKeyspace, qry.stmt), x.StatementId);
+      -- return c.executeQuery(ctx, qry)
+      let cache' := evictPreparedID s.cache (s.curKs, stmt) uid
+      let r := execQuery cfg s.curKs cache' stmt cons vals rest
+      ({ s with phase := r.1, cache := cache' }, r.2)
     | _, _ => failAct s
   | .stopped _ => (s, none)
 
